@@ -37,7 +37,7 @@ def _get(d, names):
 def generate(seed, tier, index):
     base = Stream(ID, seed, tier, index)
     rs, ru, rk, rf = base.sub("spec"), base.sub("units"), base.sub("script"), base.sub("sched")
-    kind = rs.choice(C.KINDS)
+    kind = rs.choice(["euler", "tauleap"])     # the trajectory is built with the library's own (uncapped) driver loop
     spec = None
     entry = C.make_script_entry(rs, ru, rk, kind, SPEC_P, {"steps": (2, 10), "p_seed": 0.8}, rich=rs.chance(0.85))
     # the renderer's effective system units are needed to build network/space on their own: re-derive by construction
@@ -61,7 +61,13 @@ def generate(seed, tier, index):
     ops.append(["fs_build", "scr", "script", {"sidx": 0}])
     objects["scr"] = "script"
     if rf.chance(0.35):
-        ops.append(["fs_build", "trj", "trajectory", {"sidx": 0}])
+        pl = {"sidx": 0}
+        spc = entry["phys"]["spec"]["space"]
+        if spc["type"] == "grid" and all(b == "reflecting" for b in spc["bc"]) and rf.chance(0.6):
+            # a coarse-grained run: the trajectory's system (fine grid) differs from its script's system (graph)
+            ncell = spc["w"] * spc["h"] * spc["d"]
+            pl["cgmap"] = list(range(ncell))
+        ops.append(["fs_build", "trj", "trajectory", pl])
         objects["trj"] = "trajectory"
     files = {}     # path -> object name (generator-side copy of M-fs, to draw loads)
     nfile = 0
@@ -162,6 +168,11 @@ def check(case, results):
         name = op[0]
         if "exc" in ev and name == "fs_load" and op[3] not in files:
             continue      # the file was never written (its save already failed and was reported)
+        if "exc" in ev and name == "fs_build" and isinstance(op[3], dict) and op[3].get("cgmap") is not None:
+            stats["cg_build_failed"] = stats.get("cg_build_failed", 0) + 1
+            continue      # coarse-graining itself is not this property's business
+        if name in ("fs_save", "fs_phys") and op[1] not in built:
+            continue
         if "exc" in ev:
             viol.append(dict(ctx, oracle="C12.no-exception", op=oi,
                              detail="%s %s: %s\n%s" % (name, op[1:3], ev["exc"], ev.get("tb", ""))))
